@@ -16,6 +16,7 @@ import (
 	"fmt"
 	"io"
 	"os"
+	"path/filepath"
 	"runtime"
 	"sort"
 	"sync"
@@ -116,8 +117,13 @@ func (c Concurrent) Hash(files []string) (string, error) {
 			errors = append(errors, fmt.Errorf("Could not get hash result for %s: %w", r.file, r.err))
 		}
 
-		// Include the filepath in the hash so a rename counts as a change
-		hashItem := [][]byte{r.hash, []byte(r.file)}
+		// Include the filepath in the hash so a rename counts as a change. It is the file's absolute,
+		// clean path that goes in, so that the digest depends on the file and not on how its path was spelled
+		name, err := filepath.Abs(r.file)
+		if err != nil {
+			errors = append(errors, fmt.Errorf("Could not resolve %s: %w", r.file, err))
+		}
+		hashItem := [][]byte{r.hash, []byte(name)}
 		joinedHashItem := []byte(bytes.Join(hashItem, []byte(""))) //nolint: unconvert
 		accumulator = append(accumulator, joinedHashItem)
 	}
